@@ -45,6 +45,7 @@ func checkC05(c *vh.Ctx) {
 	c05Columns(c)
 	c05Witnesses(c)
 	c05Runs(c)
+	c05SessionPairs(c) // stage P: overlapping lines of one project in one session
 }
 
 // ---------------------------------------------------------------- facts regenerated from the source
